@@ -67,7 +67,14 @@ type modelProd struct {
 	Method string // action method name for user productions
 }
 
+type FlagRegion struct {
+	Tmpl       string
+	Flag       string
+	Start, End int
+}
+
 type TmplInstance struct {
+	Regions  []FlagRegion
 	Flags    map[string]bool
 	Fset     *token.FileSet
 	Files    map[string]*ast.File // template constant name => rendered file ("" => prelude)
@@ -584,7 +591,8 @@ func (m *model) abstractValue(info *types.Info, name string, e ast.Expr, flags m
 					if len(a) != 1 || !ok || (o.Kind != "term" && o.Kind != "rule" && o.Kind != "terminal") {
 						return nil, fmt.Errorf("%s applied to a non-term", name)
 					}
-					return jTypeVal{Origin: "term"}, nil
+					idx, _ := o.Tag.(int)
+					return jTypeVal{Origin: "term", Index: idx}, nil
 				}}, nil
 			case ps.Len() == 1 && isGoTypesType(ps.At(0).Type()) && isString(r):
 				return &jFunc{Name: name, Call: func(a []any) (any, error) {
@@ -592,7 +600,11 @@ func (m *model) abstractValue(info *types.Info, name string, e ast.Expr, flags m
 					if len(a) != 1 || !ok {
 						return nil, fmt.Errorf("%s applied to %T, not a Go type", name, a[0])
 					}
-					return jGoText{Text: typePlaceholder[tvv.Origin], Cat: "type"}, nil
+					txt := typePlaceholder[tvv.Origin]
+					if tvv.Origin == "term" {
+						txt = fmt.Sprintf("_Tterm%d", tvv.Index)
+					}
+					return jGoText{Text: txt, Cat: "type"}, nil
 				}}, nil
 			case ps.Len() == 0 && isIntSlice(r):
 				return &jFunc{Name: name, Call: func(a []any) (any, error) { return &jObj{Kind: "table"}, nil }}, nil
@@ -694,8 +706,14 @@ func (r *renderer) nodes(ns []jNode, env *jEnv) error {
 					return fmt.Errorf("{{ if %s }}: condition is %T, not bool", br.Src, v)
 				}
 				if b {
+					start := r.buf.Len()
 					if err := r.nodes(br.Body, env.child()); err != nil {
 						return err
+					}
+					if id, ok := br.Cond.(*eIdent); ok {
+						if _, isFlag := r.ti.Flags[id.Name]; isFlag {
+							r.ti.Regions = append(r.ti.Regions, FlagRegion{Tmpl: r.tmpl, Flag: id.Name, Start: start, End: r.buf.Len()})
+						}
 					}
 					taken = true
 					break
@@ -750,9 +768,17 @@ type Token struct {
 	Str  []byte
 }
 
-type _Tterm struct{ v int }
+type _Tterm0 struct{ v int }
 
-func (_Tterm) Discard() bool { return false }
+func (_Tterm0) Discard() bool { return false }
+
+type _Tterm1 struct{ v int }
+
+func (_Tterm1) Discard() bool { return false }
+
+type _Tterm2 struct{ v int }
+
+func (_Tterm2) Discard() bool { return false }
 
 type _Trule struct{ v int }
 
